@@ -53,6 +53,9 @@ def gen_case(rng, big=False):
     n = rng.randrange(1, 400) if big else rng.randrange(1, 30)
     w = rng.choice(WIDTHS) if rng.random() < 0.85 else round(rng.uniform(0.05, 3), rng.choice([1, 2, 6]))
     data = gen_data(rng, w, n)
+    if rng.random() < 0.2:     # a signed variable: part of the data (and possibly the lower limit of the value range) below zero
+        shift = rng.randrange(1, 9) * w * rng.choice([1, 0.5])
+        data = [float(x - shift) for x in data]
     c = {"kind": kind, "data": data, "min_n_points": rng.choice([0, 1, 1, 2, 3]),
          "min_n_intervals": rng.choice([0, 1, 2, 3])}
     if kind == "width":
@@ -60,7 +63,7 @@ def gen_case(rng, big=False):
         c["reference"] = rng.choice(REFS)
         c["right_open"] = rng.random() < 0.6
         r = rng.random()
-        lo = rng.choice([0.0, w, 0.5 * w, round(min(data), 1)])
+        lo = rng.choice([0.0, w, 0.5 * w, round(min(data), 1), -w, -2.5 * w, min(data) - 0.5 * w])
         hi = rng.choice([max(data), max(data) + w, max(data) - w if max(data) - w > lo else max(data), round(max(data), 1)])
         if hi <= lo:
             hi = lo + 3 * w
@@ -70,7 +73,7 @@ def gen_case(rng, big=False):
         c["reference"] = rng.choice(REFS)
         c["include_max"] = rng.random() < 0.6
         if rng.random() < 0.5 or len(set(data)) < 2:
-            lo = rng.choice([0.0, 1.2, round(min(data), 1), min(data)])
+            lo = rng.choice([0.0, 1.2, round(min(data), 1), min(data), -1.0, min(data) - 0.7])
             hi = rng.choice([max(data), 8.0, round(max(data), 1) + w, max(data) + w])
             if hi <= lo:
                 hi = lo + 1.0
@@ -237,7 +240,17 @@ def oracle(iv, c):
     bounds = r0["bounds"]
     if any(len(m) != n for m in r0["masks"]):
         return ({"slicer": c["kind"], "clause": "alignment"}, "mask length differs from data length")
-    cnt = masks.sum(axis=0)
+    cnt = masks.sum(axis=0) if len(masks) else np.zeros(n, dtype=int)
+    if not bounds:
+        # no interval at all: legitimate only if no observation lies in the covered range (e.g. all data below the lower limit)
+        if c["kind"] == "width":
+            vr_ = c["value_range"] or (None, None)
+            dmin_ = 0.0 if vr_[0] is None else vr_[0]
+            dmax_ = float(data.max()) if vr_[1] is None else vr_[1]
+            inside = [float(v) for v in data if dmin_ <= v <= dmax_ and dmin_ < dmax_]
+            if inside:
+                return ({"slicer": c["kind"], "clause": "exactly-one"}, "no interval at all although %r lie in the covered range [%r, %r]" % (inside[:5], dmin_, dmax_))
+        return None
     lo0, hiN = bounds[0][0], bounds[-1][1]
     for j in range(n):
         d = data[j]
